@@ -529,6 +529,98 @@ def nontrivial(sc, o):
     return any(abs(v) > 1e-6 for p in o["params"].values() for r in p["W"] for v in r) and sum(len(c["X"]) for c in calls_of(sc)) > 1
 
 
+def pregen(ctx):
+    """tie (T) for the offline staging: re-translate get_offline_subgraphs / _get_required_nodes / _get_links (and the two helpers they
+    call) of utils/graphflow.py of the tree under test into coq/gen/Gen_staging.v (a rejected translation leaves a stub that does not
+    compile, so proofs/Gen_staging_eq.v and props/C06.v stop checking: tie broken)"""
+    from vlib import py2coq_staging
+    return py2coq_staging.pregen()
+
+
+# ------------------------------------------------------------------------------------------ tie (T), executed
+IMPORTS_GEN = ("From Coq Require Import List Arith Bool.\nFrom RV Require Import base.Num base.PyColl base.PyColl2 model.FitSem run.RunGenC06.\n"
+               "Import ListNotations.\nClose Scope Q_scope.\nOpen Scope nat_scope.")
+_GEN_EXC = (RuntimeError, KeyError, ValueError, IndexError, TypeError)
+
+
+def _gnl(l):
+    return "[" + ";".join(str(int(x)) for x in l) + "]"
+
+
+def _gel(l):
+    return "[" + ";".join("(%d,%d)" % (a, b) for a, b in l) + "]"
+
+
+def _gen_term(V, E, nid, name_id):
+    """call the REAL get_offline_subgraphs(V, E) -> (chk_gen_staging term, chk_gen_vs_model term, observation)"""
+    from reservoirpy.utils import graphflow as gf
+    Vi, Ei = [nid(n) for n in V], [(nid(a), nid(b)) for a, b in E]
+    sortedE = [(nid(a), nid(b)) for a, b in sorted(list(E), key=lambda x: x[0].name + x[1].name)]     # Python's own sort
+    offl = [nid(n) for n in V if n.is_trained_offline]
+    onl = [nid(n) for n in V if n.is_trained_online]
+    try:
+        res = gf.get_offline_subgraphs(list(V), list(E))
+        obs = [{"nodes": [nid(n) for n in ns], "edges": [(nid(a), nid(b)) for a, b in es],
+                "rel": [(name_id[k], [name_id[c] for c in v]) for k, v in rel.items()]} for (ns, es), rel in res]
+        term = "(Val [%s])" % ";".join("(%s, %s, [%s])" % (_gnl(st["nodes"]), _gel(st["edges"]),
+                                                             ";".join("(%d, %s)" % (k, _gnl(v)) for k, v in st["rel"])) for st in obs)
+    except _GEN_EXC as e:
+        obs, term = type(e).__name__, "(Exc %s)" % type(e).__name__
+    t1 = "chk_gen_staging %s %s %s %s %s %s" % (_gnl(Vi), _gel(Ei), _gel(sortedE), _gnl(offl), _gnl(onl), term)
+    t2 = None if onl else "chk_gen_vs_model %s %s %s" % (_gnl(Vi), _gel(sortedE), _gnl(offl))
+    return t1, t2, {"V": Vi, "E": Ei, "offline": offl, "online": onl, "returned": obs}
+
+
+def gen_staging_correspondence(ctx):
+    """the GENERATED staging (coq/gen/Gen_staging.v) executed by vm_compute against the real get_offline_subgraphs (sub-id C06_gen):
+    the models of the fit scenarios, and random DAGs on 1-7 Node / Ridge / RLS objects (any node order) given to the function directly"""
+    rpy()
+    from reservoirpy.node import Node
+    from reservoirpy.nodes import Ridge, RLS
+    rng = ctx.rng("corr-gen")
+    terms, keep, dist = [], [], {}
+
+    def add(kind, t1, t2, obs):
+        for t in (t1, t2):
+            if t is not None:
+                terms.append(t)
+                keep.append({"scenario": {"kind": "generated-staging", "source": kind}, "observed": jsonable(obs),
+                             "term": t if len(t) < 600 else t[:600] + "..."})
+        k = "gen:" + kind + ":" + (obs["returned"] if isinstance(obs["returned"], str) else "%d-stage" % len(obs["returned"]))
+        dist[k] = dist.get(k, 0) + 1
+    for sc in [c for c in gen_cases(rng, ctx.n(36, 240)) if c["op"] == "fit" and c["family"] != "esn"]:
+        try:
+            b = Built(sc)
+            add("scenario", *_gen_term(b.model.nodes, b.model.edges, b.nid, b.ids))
+        except Exception as e:  # noqa: BLE001
+            terms.append("false")
+            keep.append({"scenario": jsonable(sc), "impl_error": repr(e)})
+    for i in range(ctx.n(120, 1200)):
+        n = rng.randint(1, 7)
+        tag = "c06g%d_" % next(_uid)
+        kinds = [rng.choice(["fwd", "fwd", "fwd", "ridge", "ridge"]) for _ in range(n)]
+        if rng.random() < 0.1:
+            kinds = ["fwd"] * n                                      # no offline node: subgraphs[-1] raises IndexError
+        if rng.random() < 0.08:
+            kinds[rng.randrange(n)] = "rls"                          # an online node (not offline): forward node of the staging
+        objs = [Ridge(name=tag + "n%d" % j) if k == "ridge" else RLS(name=tag + "n%d" % j) if k == "rls"
+                else Node(forward=lambda node, x: x, name=tag + "n%d" % j) for j, k in enumerate(kinds)]
+        ids = {o.name: j for j, o in enumerate(objs)}
+        dens = rng.choice([0.2, 0.35, 0.6])
+        E = [(objs[a], objs[c]) for a in range(n) for c in range(a + 1, n) if rng.random() < dens]
+        rng.shuffle(E)
+        V = list(objs)
+        if rng.random() < 0.4:
+            rng.shuffle(V)                                           # not a topological order
+        try:
+            add("dag", *_gen_term(V, E, lambda o: ids[o.name], ids))
+        except Exception as e:  # noqa: BLE001
+            terms.append("false")
+            keep.append({"scenario": {"kind": "generated-staging", "kinds": kinds}, "impl_error": repr(e)})
+    failing, err = core.run_cases(ctx.pid + "_gen", IMPORTS_GEN, terms, chunk=200)
+    return terms, keep, dist, failing, err
+
+
 def correspondence(ctx):
     # the runner is not in the cone of props/C06.v: make sure it is compiled against the current model
     ok, log, failed = core.compile_cone(core.coq_cone("run/RunC06.v"))
@@ -565,8 +657,19 @@ def correspondence(ctx):
     dist["fitfb"] = dict({k: ff[k] for k in ("evaluations", "distinct_nontrivial", "distribution", "rule")}, disagree=len(ff["failing"]))
     if ff["error"]:
         err = (err or "") + "fitfb: " + ff["error"]
-    return {"evaluations": len(cases) + ff["evaluations"], "distinct_nontrivial": len(nt) + ff["distinct_nontrivial"],
-            "rule": "Model.fit on {res>>ridge, input>>res>>ridge, deep with 2 and 3 readouts, input-to-readout shortcut (both Concat fan-in orders), "
+    # tie (T), executed: the generated staging against the real get_offline_subgraphs (separate runner, sub-id C06_gen)
+    gterms, gkeep, gdist, gfail, gerr = gen_staging_correspondence(ctx)
+    dist.update(gdist)
+    dist["generated-code disagreements"] = len(gfail)
+    if gerr:
+        err = (err or "") + "generated-code run (tie T): " + gerr
+    gfailing = [dict(gkeep[j], index=len(keep) + j) for j in gfail]
+    return {"evaluations": len(cases) + ff["evaluations"] + len(gterms), "distinct_nontrivial": len(nt) + ff["distinct_nontrivial"],
+            "rule": "[tie T executed: the models of the fit scenarios and random DAGs on 1-7 Node / Ridge / RLS objects (any node order, some "
+                    "without offline node) given DIRECTLY to the real get_offline_subgraphs and to the code generated from graphflow.py: "
+                    "stage node lists and edge lists compared exactly, relations as dictionaries, IndexError as IndexError; the same graphs "
+                    "through model/FitSem.v] "
+                    "Model.fit on {res>>ridge, input>>res>>ridge, deep with 2 and 3 readouts, input-to-readout shortcut (both Concat fan-in orders), "
                     "two parallel readouts, readout fed by the data, cross-stage Concat, ESN node} x {1-3 sequences, warm-up 0-2, reset on/off, "
                     "X/Y as array / list / name-keyed mapping} plus the topologies on which the staging is known to fail; Model.train on "
                     "{res>>RLS, res>>LMS, input>>res>>RLS, deep with two online readouts, shortcut} x learn_every 1-4 x T 1-7 x array/mapping; "
@@ -574,7 +677,7 @@ def correspondence(ctx):
                     "non-trivial = a learned Wout has a non-zero entry (and T > 1 for train); distinct by scenario text",
             "samples": [keep[0], keep[2]] if len(keep) > 2 else keep[:1],
             "distribution": dist, "tolerance": "1e-9 relative (qclose)",
-            "failing": [dict(keep[i], index=i) for i in failing] + ff["failing"], "error": err}
+            "failing": [dict(keep[i], index=i) for i in failing] + ff["failing"] + gfailing, "error": err}
 
 
 # ------------------------------------------------------------------------------------------ oracle on the implementation
